@@ -35,7 +35,12 @@ ContentKinds == {"pos", "signed", "nx", "nodata", "ede", "big", "servfail", "upe
                  "cnamesplit",       \* the alias alone, validated (AD=1); its target is a second, unvalidated exchange:
                                      \* the two are cached apart and every later hit is COMPOSED (AD = AND of the pieces = 0)
                  "hosts", "as112",   \* answered ahead of the cache: hosts file entry, AS112 empty zone
-                 "nxsig", "nodatasig"} \* validated denials whose ONLY DNSSEC records (SOA RRSIG, NSEC + RRSIG) sit in the authority section
+                 "nxsig", "nodatasig", \* validated denials whose ONLY DNSSEC records (SOA RRSIG, NSEC + RRSIG) sit in the authority section
+                 "up2optF", "up2optL", "up2optB"}
+                                     \* an upstream reply whose additional section holds TWO OPT records (RFC 6891 6.1.1 forbids it, nothing
+                                     \* stops a server from sending it, and the forwarder relays an upstream's additional section as it came;
+                                     \* so does the resolver for negative answers): the upstream's own options (cookie, keepalive, padding,
+                                     \* an ECS echo) sit in the First, the Last, or Both
 LocalContent == {"hosts", "as112"}
 
 PktType == [qr: BOOLEAN, opcode: {0, 2, 4}, qd: {0, 1, 2}, an: {0, 1}, rd: BOOLEAN,
@@ -126,10 +131,37 @@ Ladder(p, sentEcs) ==
   ELSE IF Cached(p) # "" THEN "hit"
   ELSE "miss"
 
+(* ---- the OPT records of a relayed upstream message -------------------- *)
+(* first to last; TRUE = the record carries options of the upstream's exchange with us *)
+UpOpts(c) == CASE c = "up2optF" -> <<TRUE, FALSE>>
+               [] c = "up2optL" -> <<FALSE, TRUE>>
+               [] c = "up2optB" -> <<TRUE, TRUE>>
+               [] c \in {"upcookie", "upecs"} -> <<TRUE>>
+               [] c = "ede" -> <<FALSE>>
+               [] OTHER -> <<>>
+(* edns.ResponseWriter.WriteMsg toward a client that negotiated EDNS.  The contract needs ONE sanitised OPT.
+   As built (SingleOpt overridden to FALSE in MC_Serve_twoopt_asbuilt.cfg, which must FAIL) only the record
+   IsEdns0() selects - the LAST one - is rebuilt (keepEDE / stripECS / stripKeepalive); every other OPT record of
+   the message leaves with the options it came with.  A client without EDNS gets ClearOPT: all of them go. *)
+SingleOpt == TRUE
+ShapeOpts(ng, up) ==
+  IF ng.noedns THEN <<>>
+  ELSE IF up = <<>> \/ SingleOpt THEN <<FALSE>>
+  ELSE [i \in 1..Len(up) |-> IF i = Len(up) THEN FALSE ELSE up[i]]
+SeqAny(sq) == \E i \in 1..Len(sq) : sq[i]
+
+(* dnsutil.SetEdns0 on a decoded request: every client option is dropped from "the" OPT, the clamped subnet is put
+   back when the policy allows.  A request with two OPT records (opt = "dup"; both hold the client's options) has
+   only the LAST one normalised as built (StripsAllOpts overridden to FALSE in MC_Serve_dupreq_asbuilt.cfg, which
+   must FAIL): the first one travels on inside req.Extra to the resolver / forwarder and so to the upstream. *)
+StripsAllOpts == TRUE
+HasClientOption(p) == p.cookie # "none" \/ p.ecs # "none" \/ p.nsid \/ p.keepalive \/ p.pad \/ p.unk
+UpLeak(p) == ~StripsAllOpts /\ p.opt = "dup" /\ HasClientOption(p)
+
 (* ---- reply shaping --------------------------------------------------- *)
 BodyHasDnssec(c) == c \in {"signed", "cnamesplit", "nxsig", "nodatasig"}
 BodyValidated(c) == c \in {"signed", "nxsig", "nodatasig"}
-Reply(p, ng, rcodeClass, body, fromCancel) ==
+ReplyUp(p, ng, rcodeClass, body, up) ==
   [kind      |-> "reply",
    rcode     |-> rcodeClass,
    qecho     |-> TRUE,
@@ -138,12 +170,15 @@ Reply(p, ng, rcodeClass, body, fromCancel) ==
    cookie    |-> ~ng.noedns /\ ng.cookie,
    nsid      |-> ~ng.noedns /\ ng.nsid,
    keepalive |-> ~ng.noedns /\ ng.keepalive,
-   ecs       |-> FALSE,
-   foreign   |-> FALSE,
+   nopt      |-> Len(ShapeOpts(ng, up)),
+   ecs       |-> SeqAny(ShapeOpts(ng, up)),          \* the foreign record of the scripted upstream holds an ECS option too
+   foreign   |-> SeqAny(ShapeOpts(ng, up)),
    dnssec    |-> BodyHasDnssec(body) /\ (ng.do \/ p.qtype = "RRSIG"),
    ad        |-> BodyValidated(body) /\ ~ng.noad,
    tc        |-> body = "big" /\ p.proto = "udp" /\ ng.size < 65535,
    body      |-> body]
+(* a reply that is not a relayed upstream message (cache hit, local answer, cancel inside the edns writer) *)
+Reply(p, ng, rcodeClass, body, fromCancel) == ReplyUp(p, ng, rcodeClass, body, <<>>)
 
 (* Chain.CancelWithRcode as called OUTSIDE the edns writer (ratelimit BADCOOKIE, edns BADVERS).
    It used to alias the request's additional section (m.Extra = req.Extra) and so reflected the
@@ -152,7 +187,7 @@ Reply(p, ng, rcodeClass, body, fromCancel) ==
    regression config MC_Serve_regress (which must FAIL ReplyContract). *)
 RawCancel(p, rc, seesOpt, ecsLeft) ==
   [kind |-> "reply", rcode |-> rc, qecho |-> TRUE, opt |-> seesOpt, do |-> FALSE,
-   cookie |-> (rc = "badcookie"), nsid |-> FALSE, keepalive |-> FALSE,
+   cookie |-> (rc = "badcookie"), nsid |-> FALSE, keepalive |-> FALSE, nopt |-> IF seesOpt THEN 1 ELSE 0,
    ecs |-> Reflects /\ ecsLeft, foreign |-> Reflects /\ (rc = "badcookie" /\ (p.pad \/ p.nsid \/ p.keepalive)),
    dnssec |-> FALSE, ad |-> FALSE, tc |-> FALSE, body |-> "none"]
 
@@ -160,11 +195,16 @@ BareHeader(rc) == [kind |-> "bare", rcode |-> rc]
 
 RcodeOf(c) == CASE c \in {"nx", "as112", "nxsig"} -> "nxdomain" [] c = "servfail" -> "servfail" [] OTHER -> "noerror"
 
-R(o, rl, tail, store) == [o |-> o, spend |-> rl.spend, set |-> rl.set, tail |-> tail, store |-> store]
+R(o, rl, tail, store) == [o |-> o, spend |-> rl.spend, set |-> rl.set, tail |-> tail, store |-> store, upleak |-> FALSE]
+(* the request went on to the upstream: did a client-supplied option travel with it? *)
+RUp(p, o, rl, store) == [o |-> o, spend |-> rl.spend, set |-> rl.set, tail |-> TRUE, store |-> store, upleak |-> UpLeak(p)]
 Nothing == [spend |-> 0, set |-> FALSE]
 
-(* what a miss stores: failures and ECS-scoped material are not shared cache content here *)
+(* what a miss stores: failures and ECS-scoped material are not shared cache content here.  "upecs" echoes the
+   subnet of the upstream query with SCOPE = SOURCE: scoped material only when a subnet was forwarded; an upstream
+   that saw none answers without the option and the answer is stored under the shared key like any other *)
 Stores(c) == IF c \in {"servfail", "upecs", "panic"} THEN "" ELSE c
+StoresFor(p, c, ng) == IF c = "upecs" /\ ~EcsForwarded(p, ~ng.noedns) THEN c ELSE Stores(c)
 
 (* everything behind the negotiation is shared by the two passes: the cache
    ladder answers from bytes or from the Msg body, the body is the same *)
@@ -175,8 +215,8 @@ Behind(p, c, ng, rl, sentEcs) ==
     [] ld = "cancel"      -> R(NoReply, rl, FALSE, "")
     [] ld = "servfail-rd" -> R(Reply(p, ng, "servfail", "none", TRUE), rl, FALSE, "")
     [] ld = "hit"         -> R(Reply(p, ng, RcodeOf(Cached(p)), Cached(p), FALSE), rl, FALSE, "")
-    [] c = "panic"        -> R(RawCancel(p, "servfail", ~ng.noedns, FALSE), rl, TRUE, "")   \* OPT only if the CLIENT sent one
-    [] OTHER              -> R(Reply(p, ng, RcodeOf(c), c, FALSE), rl, TRUE, Stores(c))
+    [] c = "panic"        -> RUp(p, RawCancel(p, "servfail", ~ng.noedns, FALSE), rl, "")   \* OPT only if the CLIENT sent one
+    [] OTHER              -> RUp(p, ReplyUp(p, ng, RcodeOf(c), c, UpOpts(c)), rl, StoresFor(p, c, ng))   \* the miss: the upstream's message is relayed
 
 (* the decoded pass, after the engine accepted the header *)
 MsgPass(p, c) ==
@@ -250,7 +290,7 @@ Contract(p, o) ==
        /\ (o.dnssec => (p.do /\ HasOpt(p)) \/ p.qtype = "RRSIG")   \* no DNSSEC RRs unless DO or RRSIG asked
        /\ (o.ad => ~p.cd /\ ((p.do /\ HasOpt(p)) \/ p.ad))          \* AD discipline
        /\ ~o.ecs                                                \* client subnet never reflected
-       /\ ~o.foreign                                            \* foreign options never reflected
+       /\ ~o.foreign                                            \* foreign options never reflected (in ANY OPT record of the reply)
        /\ (o.cookie => p.cookie \in {"c8", "valid", "stale"})  \* server cookie only against a client cookie
        /\ (o.keepalive => p.keepalive /\ p.proto = "tcp")
   /\ (p.qr => o.kind = "none")                                  \* responses are never answered
@@ -268,6 +308,17 @@ ReplyContract ==
 NeverEcsToClient ==
   [][out'.valid =>
        (out'.wire.o.kind = "reply" => ~out'.wire.o.ecs) /\ (out'.msg.o.kind = "reply" => ~out'.msg.o.ecs)]_vars
+
+(* C19 (upstream side): every client-supplied option is removed before any upstream query (the clamped subnet the
+   policy re-attaches is not client-supplied material in this sense and is judged by Ecs.tla) *)
+NoClientOptionUpstream ==
+  [][out'.valid => ~out'.wire.upleak /\ ~out'.msg.upleak]_vars
+
+(* RFC 6891 6.1.1: an OPT record is the only one of its message.  The C06 statement does not say so in as many words
+   ("no OPT unless the query carried one"), so a reply with two harmless OPT records is reported as an observation
+   by the replay, not as a verdict; in the model it is an invariant of the repaired writer. *)
+AtMostOneOpt ==
+  [][out'.valid => (out'.wire.o.kind = "reply" => out'.wire.o.nopt <= 1) /\ (out'.msg.o.kind = "reply" => out'.msg.o.nopt <= 1)]_vars
 
 (* one limiter token per question at most, same on both passes *)
 OneToken == [][out'.valid => out'.wire.spend <= 1 /\ out'.wire.spend = out'.msg.spend]_vars
